@@ -18,21 +18,18 @@ from .c11 import new_interp
 
 
 def find_canonizers(p):
-    """role: a 3-parameter encoder of util.py that delegates to another sigencode_* function
-    but does not pass its `s` parameter through unchanged on every path"""
+    """the canonical encoders are part of the public API: util.sigencode_*_canonize; each is
+    reported with the sigencode_* functions it calls (possibly none)"""
     out = []
     m = p.modules["util"]
     for f in m.funcs.values():
-        if f.cls or "." in f.qual or len(f.params) != 3:
+        if f.cls or "." in f.qual or not (f.qual.startswith("sigencode_") and f.qual.endswith("_canonize")):
             continue
-        r, s, order = f.params
+        if len(f.params) != 3:
+            out.append((f, []))
+            continue
         calls = [n for n in ast.walk(f.node) if isinstance(n, ast.Call) and isinstance(n.func, ast.Name) and n.func.id.startswith("sigencode_") and n.func.id in m.funcs and n.func.id != f.qual]
-        if not calls:
-            continue
-        reassigned = any(isinstance(n, (ast.Assign, ast.AugAssign)) and any(isinstance(t, ast.Name) and t.id == s for t in (n.targets if isinstance(n, ast.Assign) else [n.target])) for n in ast.walk(f.node))
-        changed_arg = any(len(c.args) >= 2 and not (isinstance(c.args[1], ast.Name) and c.args[1].id == s) for c in calls)
-        if reassigned or changed_arg:
-            out.append((f, sorted({c.func.id for c in calls})))
+        out.append((f, sorted({c.func.id for c in calls})))
     return out
 
 
@@ -50,7 +47,8 @@ def run(chk):
     for f, sibs in cans:
         name = f.qual
         if len(sibs) != 1:
-            chk.ob("R13.4", "%s delegates to exactly one encoder" % name, False, loc=f.qname, key="C13|R13.4|%s|siblings" % name, detail="delegates to %s" % sibs)
+            chk.ob("R13.4", "%s delegates to exactly one encoder (its plain sibling)" % name, False, loc=f.qname, key="C13|R13.4|%s|siblings" % name,
+                   detail="%s does not produce its bytes by delegating to the plain encoder of its format (calls: %s): the output is not guaranteed to equal the plain encoding of (r, s')" % (name, sibs))
             continue
         sib = "util:" + sibs[0]
         chk.ob("R13.4", "%s delegates to the plain encoder of its format (%s)" % (name, sibs[0]), name == sibs[0] + "_canonize", loc=f.qname,
